@@ -289,78 +289,103 @@ def job_solid_v1(jc):
     jc.concrete_validations += 1
 
 
+class _PaletteGlyph:
+    def __init__(self, cols):
+        self._c = cols
+        self.painted_layers = ()
+        self.ufo_glyph_name = "g"
+
+    def colors(self):
+        return set(self._c)
+
+    def transform_for_font_space(self):
+        return None
+
+    def mutating_traverse(self, m):
+        return self
+
+
+def _palette_case(version, c0, c1):
+    """run the real write_font._colr_ufo on one stub glyph using c0, c1 and currentColor; -> the palette it built"""
+    from nanoemoji import write_font as WF
+    import ufoLib2
+
+    cc = Color.current_color(alpha=0.5)
+    ufo = ufoLib2.Font()
+    captured = {}
+    orig = C.Color.to_ufo_color
+    cfg = type("Cfg", (), {"reuse_tolerance": 0.1, "clipbox_quantization": None, "upem": 1000})()
+    real_uniq, real_mig, real_bounds = WF.uniq_sort_cpal_colors, WF._migrate_paths_to_ufo_glyphs, WF._bounds
+
+    def rec(cols):
+        res = real_uniq(cols)
+        captured["pal"] = res
+        return res
+
+    WF.uniq_sort_cpal_colors = rec
+    WF._migrate_paths_to_ufo_glyphs = lambda g, cache: g
+    WF._bounds = lambda g, q=1: None
+    Color.to_ufo_color = lambda self: (0, 0, 0, 0)
+    try:
+        WF._colr_ufo(version, cfg, ufo, (_PaletteGlyph([c0, c1, cc]),))
+    finally:
+        WF.uniq_sort_cpal_colors, WF._migrate_paths_to_ufo_glyphs, WF._bounds = real_uniq, real_mig, real_bounds
+        Color.to_ufo_color = orig
+    return captured["pal"]
+
+
+def replay_colr_ufo_palette(inp):
+    version = inp["version"]
+    c0 = Color(int(inp["r0"]), 9, 9, float(inp["a0"]))
+    c1 = Color(int(inp["r1"]), 9, 9, float(inp["a1"]))
+    try:
+        pal = _palette_case(version, c0, c1)
+    except Exception as e:
+        return {"raised": repr(e)}
+    bad = []
+    for c in (c0, c1):
+        want = c if version == 0 else c.opaque()
+        if not any(p.red == want.red and abs(p.alpha - want.alpha) < 1e-12 for p in pal):
+            bad.append({"colour without a palette entry": repr(c)})
+    if any(p.red < 0 for p in pal):
+        bad.append("currentColor sentinel in the palette")
+    if version == 1 and any(p.alpha != 1 for p in pal):
+        bad.append("COLRv1 palette entry with alpha")
+    return {"palette": [repr(p) for p in pal], "problems": bad} if bad else None
+
+
 def job_colr_ufo_palette(jc):
     """The palette-construction lines of write_font._colr_ufo, run on a stub glyph list:
     v1 stores opaque entries, v0 keeps alpha; currentColor never enters the palette."""
     from nanoemoji import write_font as WF
-    import ufoLib2, ufo2ft
 
     jc.encode(WF._colr_ufo)
     version = jc.params["version"]
-
-    class StubGlyph:
-        def __init__(self, cols):
-            self._c = cols
-            self.painted_layers = ()
-            self.ufo_glyph_name = "g"
-
-        def colors(self):
-            return set(self._c)
-
-        def transform_for_font_space(self):
-            return None
-
-        def mutating_traverse(self, m):
-            return self
-
     inp = {"version": version, "r0": core.SymNum(z3.Int("r0")), "r1": core.SymNum(z3.Int("r1")), "a0": core.SymNum(z3.Real("a0")), "a1": core.SymNum(z3.Real("a1"))}
-
-    captured = {}
 
     def body():
         c0 = Color(core.integer("r0", 0, 255), 9, 9, core.real("a0", 0, 1))
         c1 = Color(core.integer("r1", 0, 255), 9, 9, core.real("a1", 0, 1))
-        cc = Color.current_color(alpha=0.5)
-        ufo = ufoLib2.Font()
-        captured.clear()
-        orig = C.Color.to_ufo_color
-        cfg = type("Cfg", (), {"reuse_tolerance": 0.1, "clipbox_quantization": None, "upem": 1000})()
-        real_uniq = WF.uniq_sort_cpal_colors
+        return c0, c1, _palette_case(version, c0, c1)
 
-        def rec(cols):
-            res = real_uniq(cols)
-            captured["pal"] = res
-            return res
-
-        WF.uniq_sort_cpal_colors = rec
-        Color.to_ufo_color = lambda self: (0, 0, 0, 0)
-        try:
-            WF._colr_ufo(version, cfg, ufo, (StubGlyph([c0, c1, cc]),))
-        finally:
-            WF.uniq_sort_cpal_colors = real_uniq
-            Color.to_ufo_color = orig
-        return c0, c1, captured["pal"]
-
-    shim_list = [shims.Shim("nanoemoji.write_font", "_migrate_paths_to_ufo_glyphs", lambda g, cache: g, "not under test here"),
-                 shims.Shim("nanoemoji.write_font", "_bounds", lambda g, q=1: None, "not under test here")]
-    with _ConstHash(), shims.installed(shim_list):
+    with _ConstHash():
         results = jc.explore(body, catch=(ValueError,))
     for r in results:
-        if r.exc is not None:
-            jc.inconclusive.append(f"palette construction raised {r.exc!r}")
+        if not jc.no_exception(r, inp, replay_colr_ufo_palette, f"C15:colr_ufo:v{version}:raises"):
             continue
         c0, c1, pal = r.value
         jc.reach(r, "ok")
         conj = []
         for c in (c0, c1):
             want_alpha = c.alpha if version == 0 else 1
-            conj.append(z3.Or(*[z3.And(core.as_term(p.red) == core.as_term(c.red), core.as_term(p.alpha) == core.as_term(want_alpha), z3.BoolVal(p.green == 9 or True)) for p in pal]))
+            conj.append(z3.Or(*[z3.And(core.as_term(p.red) == core.as_term(c.red), core.as_term(p.alpha) == core.as_term(want_alpha)) for p in pal]))
         # currentColor sentinel (-1,-1,-1) never in the palette
         conj.append(z3.And(*[core.as_term(p.red) >= 0 for p in pal]))
         if version == 1:
             conj.append(z3.And(*[core.as_term(p.alpha) == 1 for p in pal]))
-        jc.prove(r, z3.And(*conj), f"_colr_ufo v{version}: palette entries {'opaque' if version else 'carry alpha'}; currentColor excluded", inp, None,
+        jc.prove(r, z3.And(*conj), f"_colr_ufo v{version}: palette entries {'opaque' if version else 'carry alpha'}; currentColor excluded", inp, replay_colr_ufo_palette,
                  key=f"C15:colr_ufo:v{version}")
+    jc.expect_reached("ok")
 
 
 # ---- every colour resolves: palette built as _colr_ufo does, then each colour looked up
